@@ -52,8 +52,8 @@ def _concretise_ufs(e):
 
 def relevant(hyps, goal, hops):
     """hypotheses connected to the goal through shared variables within `hops` steps (fewer premises: still sound)"""
-    want = term_vars([goal])
-    hv = [(h, term_vars([h])) for h in hyps]
+    want = set(term_vars([goal]))
+    hv = [(h, _tv1(h)) for h in hyps]
     chosen = [False] * len(hv)
     for _ in range(hops):
         new = set()
@@ -69,6 +69,12 @@ def relevant(hyps, goal, hops):
 
 def discharge(stats, hyps, goal, what, named=None, timeout_s=60, tactic=None, hops=None):
     """prove goal under hyps or raise Violation / Inconclusive"""
+    if os.environ.get("VERIF_DUMP_QUERIES"):
+        import hashlib
+        d = os.environ["VERIF_DUMP_QUERIES"]
+        os.makedirs(d, exist_ok=True)
+        with open(os.path.join(d, hashlib.md5(what.encode()).hexdigest()[:10] + ".smt2"), "w") as f:
+            f.write("; " + what + "\n" + smt.to_smt2(list(hyps) + [z3.Not(goal)]) + "\n")
     if hops:
         for hp in hops:
             sub = relevant(hyps, goal, hp)
@@ -77,12 +83,6 @@ def discharge(stats, hyps, goal, what, named=None, timeout_s=60, tactic=None, ho
                 stats.log.append((what + " [%d-hop premises: %d of %d]" % (hp, len(sub), len(hyps)), st, round(dt, 3)))
                 if st == smt.UNSAT:
                     return
-    if os.environ.get("VERIF_DUMP_QUERIES"):
-        import hashlib
-        d = os.environ["VERIF_DUMP_QUERIES"]
-        os.makedirs(d, exist_ok=True)
-        with open(os.path.join(d, hashlib.md5(what.encode()).hexdigest()[:10] + ".smt2"), "w") as f:
-            f.write("; " + what + "\n" + smt.to_smt2(list(hyps) + [z3.Not(goal)]) + "\n")
     st, m, dt = smt.prove(hyps, goal, timeout_s, stats, tactic)
     stats.log.append((what, st, round(dt, 3)))
     if st == smt.UNSAT:
@@ -175,12 +175,27 @@ def assert_sat(stats, hyps, what, timeout_s=20):
         raise Inconclusive("vacuous obligation: hypotheses of '%s' are unsatisfiable" % what)
 
 
-def check_panics(stats, ctx, named=None, timeout_s=30, allow=None):
-    """every MIR assert (overflow / bounds / explicit) recorded on this path must hold"""
-    for kind, pc, cond, msg, where in ctx.obls:
+def check_panics(stats, ctx, named=None, timeout_s=30, allow=None, hops=None, fresh_only=False):
+    """every MIR assert (overflow / bounds / explicit) and every recorded invariant on this path must hold.
+    fresh_only: skip the obligations recorded on the replayed prefix of the path (identical copies belong to the parent
+    path) - only valid when the caller checks EVERY path returned by explore()."""
+    for kind, pc, cond, msg, where in (ctx.obls[ctx.fresh_from:] if fresh_only else ctx.obls):
         if allow and allow(msg, where):
             continue
-        discharge(stats, ctx.facts + pc, cond, "no panic at %s: %s" % (where, msg[:60]), named, timeout_s)
+        what = ("no panic at %s: %s" if kind != "invariant" else "%s: %s") % (where, msg[:90])
+        discharge(stats, ctx.facts + pc, cond, what, named, timeout_s, hops=hops)
+
+
+_TV = {}
+
+
+def _tv1(h):
+    k = h.get_id()
+    e = _TV.get(k)
+    if e is None or not e[0].eq(h):
+        e = (h, frozenset(term_vars([h])))
+        _TV[k] = e
+    return e[1]
 
 
 def term_vars(terms):
